@@ -77,7 +77,7 @@ def render(h: dict[str, Any]) -> str:
         if c["kw_only"]:
             args.append("kw_only=True")
         out.append(f"@dataclass({', '.join(args)})")
-        out.append(f"class {c['name']}({', '.join(bases_of(c))}):")
+        out.append(f"class {c['name']}({', '.join(bases_of(c))}):" if not c.get("plain") else f"class {c['name']}:")
         if not c["fields"]:
             out.append("    pass")
         for f in c["fields"]:
@@ -105,10 +105,19 @@ def render(h: dict[str, Any]) -> str:
 
 
 def bases_of(c: dict[str, Any]) -> list[str]:
+    if c.get("plain"):
+        return []  # a plain frozen dataclass (not a node class) used as a mixin
     return [c["base"]] + ([c["base2"]] if c.get("base2") else [])
 
 
-def mro_names(h: dict[str, Any], cname: str) -> list[str]:
+SPECIALS: list[dict[str, Any]] = [
+    {"name": "id", "kind": "special", "init": False, "compare": False},
+    {"name": "content_id", "kind": "special", "init": False, "compare": False},
+    {"name": "origin", "kind": "special", "init": True, "compare": True},
+]
+
+
+def mro_names(h: dict[str, Any], cname: str, with_root: bool = False) -> list[str]:
     """C3 linearisation of a generated class (nearest first, ASTNode excluded), computed by Python itself on plain
     stand-in classes"""
     by = {c["name"]: c for c in h["classes"]}
@@ -119,18 +128,15 @@ def mro_names(h: dict[str, Any], cname: str) -> list[str]:
             memo[n] = type(n, tuple(mk(b) for b in bases_of(by[n])), {})
         return memo[n]
 
-    return [k.__name__ for k in mk(cname).__mro__ if k.__name__ in by]
+    return [k.__name__ for k in mk(cname).__mro__ if k.__name__ in by or (with_root and k.__name__ == "ASTNode")]
 
 
 def linear(h: dict[str, Any], cname: str) -> list[dict[str, Any]]:
     """Dataclass field order (dataclasses._process_class): the bases in reverse MRO order each contribute ALL their
-    fields, then the class' own; a field seen again keeps its first slot and takes the later definition."""
+    fields, then the class' own; a field seen again keeps its first slot and takes the later definition.  ASTNode
+    contributes id, content_id, origin -- a plain dataclass mixin listed after the node base comes before them."""
     by = {c["name"]: c for c in h["classes"]}
-    out: list[dict[str, Any]] = [
-        {"name": "id", "kind": "special", "init": False, "compare": False},
-        {"name": "content_id", "kind": "special", "init": False, "compare": False},
-        {"name": "origin", "kind": "special", "init": True, "compare": True},
-    ]
+    out: list[dict[str, Any]] = []
 
     def put(f: dict[str, Any]) -> None:
         for i, g in enumerate(out):
@@ -139,9 +145,9 @@ def linear(h: dict[str, Any], cname: str) -> list[dict[str, Any]]:
                 return
         out.append(f)
 
-    mro = mro_names(h, cname)
+    mro = mro_names(h, cname, with_root=True)
     for b in reversed(mro[1:]):
-        for f in linear(h, b)[3:]:
+        for f in SPECIALS if b == "ASTNode" else linear(h, b):
             put(f)
     for f in by[cname]["fields"]:
         put(f)
@@ -230,7 +236,9 @@ class World:
         self.mod = mod
         self.src = src
         for c in self.h["classes"]:
-            if c.get("base2"):
+            if c.get("mixin"):
+                self.stats.probes["class_with_plain_dataclass_mixin:" + c["mixin"]] += 1
+            elif c.get("base2"):
                 self.stats.probes["class_with_two_node_bases" + ("" if c["fields"] else ":fieldless")] += 1
         return "ok"
 
@@ -370,6 +378,36 @@ class World:
             self.inst_cls[op["out"]] = cname
             self.check_instance(o, cname, fl, "replace", sample=True)
             self.stats.probes["replace_then_accessors"] += 1
+            return "ok"
+        if what == "partial":
+            # an accessor's generator abandoned after `take` items (any(...), next(iter(...)), a break): only a
+            # perturbation of the history, every later full call must still be exact
+            flags = {**DEFAULT_FLAGS, **op.get("flags", {})}
+            acc = op["acc"]
+            if acc == "get_property_fields":
+                it = iter(C.get_property_fields(**flags))
+            else:
+                o = self.inst.get(op.get("inst", ""))
+                if o is None:
+                    raise SkipOp("no instance")
+                if acc == "get_properties":
+                    it = iter(o.get_properties(**flags, sort_keys=op.get("sort", False)))
+                elif acc == "iter_child_fields":
+                    it = iter(o.iter_child_fields(sort_keys=op.get("sort", False)))
+                elif acc == "get_child_nodes_with_field":
+                    it = iter(o.get_child_nodes_with_field(sort_keys=op.get("sort", False)))
+                else:
+                    it = iter(o.get_child_nodes(sort_keys=op.get("sort", False)))
+            self.mark(cname)
+            n = 0
+            for _ in it:
+                n += 1
+                if n >= op.get("take", 1):
+                    break
+            if hasattr(it, "close"):
+                it.close()
+            del it
+            self.stats.probes["accessor_generator_abandoned"] += 1
             return "ok"
         if what == "get_property_fields":
             self.mark(cname)
@@ -605,6 +643,22 @@ class Gen:
                             continue
                         fields.append(f)
                 classes.append({"name": f"G{len(classes)}", "base": a, "base2": b, "slots": False, "kw_only": True, "fields": fields})
+        # a plain frozen dataclass (no node class) mixed into one node class, before or after its node base
+        if r.random() < 0.25:
+            cands = [c for c in classes if not c.get("base2")]
+            c = r.choice(cands)
+            pf = []
+            while len(pf) < r.choice([1, 2]):
+                f = self.field(True, [], allow_override=False)
+                if f["kind"] in PROP_KINDS:
+                    pf.append(f)
+            plain = {"name": "P0", "plain": True, "base": "object", "slots": False, "kw_only": True, "fields": pf}
+            if r.random() < 0.5:
+                c["base2"], c["mixin"] = "P0", "after-node-base"  # P0's fields come BEFORE id / content_id / origin
+            else:
+                c["base"], c["base2"], c["mixin"] = "P0", c["base"], "before-node-base"
+            c["slots"] = False
+            classes.insert(0, plain)
         used_as_base = {b for c in classes for b in bases_of(c)}
         for c in classes:
             if c["name"] in used_as_base:
@@ -651,7 +705,7 @@ class Gen:
 
         self.late = r.random() < 0.3
         do({"op": "define", "hier": self.hierarchy()})
-        names = [c["name"] for c in w.h["classes"]]
+        names = [c["name"] for c in w.h["classes"] if not c.get("plain")]
         if self.late:
             for cn in names:
                 if r.random() < 0.6:
@@ -668,14 +722,18 @@ class Gen:
         ni = 0
         for cn in order:
             pre = []
+            if r.random() < 0.2:
+                pre.append({"op": "event", "cls": cn, "what": "partial", "acc": "get_property_fields", "take": r.choice([1, 1, 2]), "flags": r.choice([{}, {k: r.random() < 0.5 for k in FLAGS}])})
             if r.random() < 0.4:
-                pre.append({"op": "event", "cls": cn, "what": "get_property_fields", "flags": {k: r.random() < 0.5 for k in FLAGS}})
+                pre.append({"op": "event", "cls": cn, "what": "get_property_fields", "flags": r.choice([{}, {k: r.random() < 0.5 for k in FLAGS}])})
             if r.random() < 0.3:
                 pre.append({"op": "event", "cls": cn, "what": "get_child_fields"})
             ni += 1
             inst = f"i{ni}"
             # without the sampled check the scheduled accessor events below are really the first calls on this class
             evs = pre + [{"op": "event", "cls": cn, "what": "instantiate", "inst": inst, "vals": self.values(cn), "check": r.random() < 0.4}]
+            if r.random() < 0.25:
+                evs.append({"op": "event", "cls": cn, "what": "partial", "inst": inst, "acc": r.choice(["get_properties", "get_child_nodes", "get_child_nodes_with_field", "iter_child_fields", "get_property_fields"]), "take": r.choice([1, 1, 2]), "flags": r.choice([{}, {k: r.random() < 0.5 for k in FLAGS}]), "sort": r.random() < 0.5})
             for what in r.sample(["get_properties", "get_child_nodes", "get_child_nodes_with_field", "iter_child_fields", "children", "to_properties_dict"], r.choice([1, 2, 4, 6])):
                 evs.append({"op": "event", "cls": cn, "what": what, "inst": inst, "flags": {k: r.random() < 0.5 for k in FLAGS}, "sort": r.random() < 0.5})
             events.append(evs)
@@ -718,6 +776,8 @@ class Gen:
                 h2["postponed"] = w.h["postponed"]
             do({"op": "redefine", "hier": h2})
             for c in w.h["classes"]:
+                if c.get("plain"):
+                    continue
                 cn = c["name"]
                 ni += 1
                 do({"op": "event", "cls": cn, "what": "instantiate", "inst": f"i{ni}", "vals": self.values(cn), "check": r.random() < 0.5})
